@@ -4,6 +4,15 @@ from harness.drivers import algebra
 
 
 def run(ck):
+    # Machine.tla: TLC checks Impl |= Props on the bounded instance and exports programs (spec -> code)
+    from vlib import machine
+    from harness import gen as _gen
+    _tids = _gen.Tids(100000)
+    mprogs = []
+    mprogs += machine.run_machine(ck, "Z2", "abelian", "PoolZ2s", "OpsStruct", rank=2, depth=3, mod=40, tids=_tids)
+    if ck.tier != "quick":
+        mprogs += machine.run_machine(ck, "U1", "abelian", "PoolU1s", "OpsStruct", rank=2, depth=3, mod=100, tids=_tids)
+    ck.conform(mprogs)
     q = ck.tier == "quick"
     tids = gen.Tids()
     progs = algebra.array_programs(ck.seed, 60 if q else 1200, tids=tids)
